@@ -98,6 +98,17 @@ def run(ck, m):
                 for (sbi, tt, ft) in bool_switches(b, local=pay):
                     if b.dominates(ft, abi) and not b.dominates(tt, abi):
                         false_dom = True
+            # `Some(false) => …` matches on the payload in place: switchInt((_x as Some).0)
+            for xb in b.reachable():
+                tx = b.term(xb)
+                if tx['k'] != 'switch':
+                    continue
+                pp = tx['o'].get('c') or tx['o'].get('m')
+                if pp and pp['l'] == it['d']['l'] and any(e[0] == 'd' for e in pp.get('p', ())) and any(e[0] == 'f' for e in pp.get('p', ())):
+                    zero = [tb for v, tb in tx['targets'] if str(v) == '0']
+                    others_ = [tb for v, tb in tx['targets'] if str(v) != '0'] + [tx['else']]
+                    if zero and b.dominates(zero[0], abi) and not any(b.dominates(o_, abi) for o_ in others_ if o_ != zero[0]):
+                        false_dom = True
             newval = [const_val(r) for r in origins(b, it['args'][2])]
             ok = fld == 'ack_count' and some_dom and false_dom and newval == [True]
             why = ('ack_count.fetch_add is reached only when the server had an entry and it was false' if ok else
